@@ -39,6 +39,13 @@ pub struct PortCase {
     pub wait: u32,
     /// extra random amounts (fractions of the frontier) at which the success side is also checked
     pub fracs: Vec<u16>,
+    /// > 0: before the portfolio is built, a third user borrows from one bank (steep curve) and `inflate` rounds of
+    /// five years pass, so that this bank's share values are orders of magnitude above 1
+    #[serde(default)]
+    pub inflate: u8,
+    /// with `inflate`: the user also takes a tiny debt (native units) in the inflated bank
+    #[serde(default)]
+    pub tiny_debt: u64,
 }
 
 pub fn c04_bank_strategy_pub() -> impl Strategy<Value = BankSpec> {
@@ -122,8 +129,17 @@ pub fn case_strategy(max_banks: usize) -> impl Strategy<Value = PortCase> {
         prop::bool::weighted(0.3),
         // staked world: every bank is SOL-tagged (borrowable) or a staked-collateral bank (collateral only)
         (prop::bool::weighted(0.12), prop::collection::vec((1_000_000_000u64..2_000_000_000_000_000, 500u32..3000, any::<bool>()), 16)),
+        (prop_oneof![5 => Just(0u8), 1 => 1u8..3, 1 => 3u8..6], prop_oneof![1 => Just(0u64), 2 => 1u64..1000, 2 => 1000u64..10_000_000]),
     )
-        .prop_map(|(mut banks, deps, bors, ro, stale, (probe_kind, probe_bank, wait), fracs, ro_on, (staked_world, pools))| {
+        .prop_map(|(mut banks, deps, bors, ro, stale, (probe_kind, probe_bank, wait), fracs, ro_on, (staked_world, pools), (inflate, tiny_debt))| {
+            let inflate = if staked_world { 0 } else { inflate };
+            if inflate > 0 {
+                let ib = idx(probe_bank, banks.len());
+                banks[ib].curve.zero = 2_000_000_000;
+                banks[ib].curve.hundred = 4_000_000_000;
+                banks[ib].curve.points.clear();
+                banks[ib].isolated = false;
+            }
             if staked_world {
                 // the group's SOL feed: the first bank's oracle, as a Pyth push feed
                 let mut feed = banks[0].oracle.clone();
@@ -149,8 +165,10 @@ pub fn case_strategy(max_banks: usize) -> impl Strategy<Value = PortCase> {
                     }
                 }
             }
-            let spec = WorldSpec { banks, n_users: 2, program_fees_enabled: false, ..WorldSpec::default() };
+            let spec = WorldSpec { banks, n_users: 3, program_fees_enabled: false, ..WorldSpec::default() };
             PortCase {
+                inflate,
+                tiny_debt,
                 spec,
                 deposits: deps.into_iter().map(|(b, amt)| Pos { b, amt }).collect(),
                 borrows: bors.into_iter().map(|(b, amt)| Pos { b, amt }).collect(),
@@ -175,6 +193,12 @@ pub struct CaseStats {
     pub converse_checked: bool,
     pub success_checks: u64,
     pub boundary_err: Option<u64>,
+    pub inflated: bool,
+    /// strict reading: successes whose health is negative once debts of >= 1 native unit that the program ignores
+    /// (fewer than one liability share) are counted; (message, amount) of the first
+    pub strict_hits: u64,
+    pub strict_first: Option<String>,
+    pub max_lsv: f64,
 }
 
 fn borrow_power(w: &World, acct: &solana_program::pubkey::Pubkey, bi: usize) -> u64 {
@@ -222,6 +246,17 @@ fn check_success(vm: &Vm, acct: &solana_program::pubkey::Pubkey, what: &str, sta
     if h.isolated_liab && h.n_liabs > 1 {
         return Err(("gate:isolated-not-only-debt".into(), format!("{what} succeeded with an isolated-tier debt among {} debts", h.n_liabs)));
     }
+    // strict reading of "positions of less than one native unit count as empty": a debt of >= 1 native unit held as
+    // fewer than one liability share (share value > 1) is ignored by the program but counted by the statement
+    if h.strict_debt_lo.is_positive() {
+        let strict_hi = &hh.hi + (&h.ignored - &h.strict_debt_in_ignored) - &h.strict_debt_lo;
+        if strict_hi.is_negative() {
+            stats.strict_hits += 1;
+            if stats.strict_first.is_none() {
+                stats.strict_first = Some(format!("{what} succeeded; health counting every debt of at least one native unit is at most {} (the program ignores debts of fewer than one liability SHARE: here worth at least {} weighted)", q_str(&strict_hi), q_str(&h.strict_debt_lo)));
+            }
+        }
+    }
     Ok(())
 }
 
@@ -236,8 +271,33 @@ pub fn run_case(c: &PortCase, stats: &mut CaseStats) -> Result<(), (String, Stri
         let ix = w.ix_deposit(lender.accts[0], lender.auth, bi, lender.tokens[bi], 1_000_000_000_000_000, None);
         let _ = w.vm.exec(&ix);
     }
+    // inflation phase: a third user borrows from bank ib, five-year rounds pass (share values of ib grow by orders of magnitude)
+    let ib = idx(c.probe_bank, nb);
+    if c.inflate > 0 && w.users.len() > 2 {
+        let inf = w.users[2].clone();
+        for bi in 0..nb {
+            if bi != ib {
+                let ix = w.ix_deposit(inf.accts[0], inf.auth, bi, inf.tokens[bi], 1_000_000_000_000_000, None);
+                let _ = w.vm.exec(&ix);
+            }
+        }
+        let p = borrow_power(&w, &inf.accts[0], ib);
+        let a = p / 10 * 9;
+        if a > 0 && w.vm.exec(&w.ix_borrow(inf.accts[0], inf.auth, ib, inf.tokens[ib], a)).is_ok() {
+            for _ in 0..c.inflate {
+                w.vm.advance(157_000_000);
+                w.refresh_oracles();
+                let _ = w.vm.exec(&w.ix_accrue(ib));
+            }
+            stats.inflated = true;
+        }
+    }
     let mut dep_banks: Vec<usize> = vec![];
     for d in &c.deposits {
+        // with inflation the user keeps out of the inflated bank on the deposit side
+        if stats.inflated && idx(d.b, nb) == ib {
+            continue;
+        }
         let bi = idx(d.b, nb);
         let ix = w.ix_deposit(acct, usr.auth, bi, usr.tokens[bi], d.amt, None);
         if w.vm.exec(&ix).is_ok() && !dep_banks.contains(&bi) {
@@ -260,6 +320,11 @@ pub fn run_case(c: &PortCase, stats: &mut CaseStats) -> Result<(), (String, Stri
             continue;
         }
         let ix = w.ix_borrow(acct, usr.auth, bi, usr.tokens[bi], a);
+        let _ = w.vm.exec(&ix);
+    }
+    // a tiny debt in the inflated bank (fewer than one liability share when the share value is large)
+    if stats.inflated && c.tiny_debt > 0 && !dep_banks.contains(&ib) {
+        let ix = w.ix_borrow(acct, usr.auth, ib, usr.tokens[ib], c.tiny_debt);
         let _ = w.vm.exec(&ix);
     }
     // reduce-only collateral
@@ -299,7 +364,7 @@ pub fn run_case(c: &PortCase, stats: &mut CaseStats) -> Result<(), (String, Stri
         if cands.is_empty() {
             return Ok(());
         }
-        let bi = cands[idx(c.probe_bank, cands.len())];
+        let bi = if stats.inflated && cands.contains(&ib) { ib } else { cands[idx(c.probe_bank, cands.len())] };
         (bi, w.tok(&w.banks[bi].lv), "borrow")
     };
     if upper == 0 {
@@ -348,6 +413,10 @@ pub fn run_case(c: &PortCase, stats: &mut CaseStats) -> Result<(), (String, Stri
     {
         let a = read_macct(&vm_star, &acct).unwrap();
         let h = health(&vm_star, &a, Req::Initial, vm_star.now());
+        if stats.inflated {
+            stats.max_lsv = crate::num::q_f64(&q_w(w.bank(ib).liability_share_value));
+            stats.features.push("inflated-share-values");
+        }
         if h.emode_active {
             stats.features.push("emode");
         }
@@ -424,7 +493,9 @@ pub fn run_case(c: &PortCase, stats: &mut CaseStats) -> Result<(), (String, Stri
     Ok(())
 }
 
-const RULE: &str = "proptest portfolios: 2-8 banks (generated weights, isolated tier, e-mode tags/entries valid for the bank's liability weights, collateral-value caps, Pyth with EMA != spot and confidence / Switchboard / fixed oracles, SPL/Token-2022/transfer-fee mints, origination fee), 1-8 deposits, 0-4 borrows sized by the reference borrowing power, optional ReduceOnly collateral and stale collateral oracles; then one borrow or withdraw whose amount is bisected on the real program to the largest accepted value a*. Oracle: reference initial health (exact rationals + enclosure) on the real post-state: success => not definitely unhealthy and an isolated debt is the only debt; rejection with the risk-engine code at a*+1 => health after a* minus the value of a few more units is not clearly positive. Non-trivial = health binds (0 < a* < available, rejected with the risk-engine code) and at least one of e-mode / cap discount / confidence / >=2 debts / stale or reduce-only collateral is active; distinct by (features, positions, probe kind, bank count).";
+pub const STRICT_SIG: &str = "gate:success-but-unhealthy:debt-below-one-share-ignored";
+
+const RULE: &str = "proptest portfolios: 2-8 banks (generated weights, isolated tier, e-mode tags/entries valid for the bank's liability weights, collateral-value caps, Pyth with EMA != spot and confidence / Switchboard / fixed oracles, SPL/Token-2022/transfer-fee mints, origination fee), 1-8 deposits, 0-4 borrows sized by the reference borrowing power, optional ReduceOnly collateral and stale collateral oracles; in 2/7 of the worlds one bank's share values are first inflated by orders of magnitude (a third user borrows from it on a steep curve, 1-5 rounds of five years) and the user takes a tiny debt there; then one borrow or withdraw whose amount is bisected on the real program to the largest accepted value a*. Oracle: reference initial health (exact rationals + enclosure) on the real post-state: success => not definitely unhealthy and an isolated debt is the only debt; rejection with the risk-engine code at a*+1 => health after a* minus the value of a few more units is not clearly positive. Non-trivial = health binds (0 < a* < available, rejected with the risk-engine code) and at least one of e-mode / cap discount / confidence / >=2 debts / stale or reduce-only collateral is active; distinct by (features, positions, probe kind, bank count).";
 
 pub fn run(ctx: &Ctx) -> Report {
     let cases: u32 = ctx.tier.pick(3000, 30_000);
@@ -432,11 +503,22 @@ pub fn run(ctx: &Ctx) -> Report {
     let mut rep = par_workers(ctx.threads, |wi| {
         let mut rep = Report::new(RULE);
         let strat = case_strategy(max_banks);
+        let mut strict_first: Option<(PortCase, String)> = None;
         let outcome = run_prop(ctx.seed_bytes("c04", wi as u64), cases, &strat, |c, counting| {
             let mut st = CaseStats::default();
             let r = run_case(c, &mut st);
             if counting {
                 rep.eval();
+                if st.inflated {
+                    rep.label("inflated-bank");
+                    rep.set_max("max_liability_share_value", st.max_lsv);
+                }
+                if st.strict_hits > 0 {
+                    rep.label_n("strict:success-with-ignored-debt-of-at-least-one-unit", st.strict_hits);
+                    if strict_first.is_none() {
+                        strict_first = Some((c.clone(), st.strict_first.clone().unwrap_or_default()));
+                    }
+                }
                 if st.built {
                     rep.label("built");
                 }
@@ -471,6 +553,10 @@ pub fn run(ctx: &Ctx) -> Report {
             let (sig, m) = msg.split_once('|').map(|(a, b)| (a.to_string(), b.to_string())).unwrap_or((msg.clone(), msg.clone()));
             rep.violation(&sig, m, serde_json::to_value(&c).unwrap());
         }
+        // the strict-reading finding does not stop the search (it is excluded by construction: counted, reported once)
+        if let Some((c, m)) = strict_first {
+            rep.violation(STRICT_SIG, m, serde_json::to_value(&c).unwrap());
+        }
         rep
     });
     rep.nontrivial_floor = ctx.tier.pick(30, 300);
@@ -486,6 +572,8 @@ pub fn replay(_ctx: &Ctx, case: &Value) -> Report {
             rep.eval();
             if let Err((sig, msg)) = run_case(&c, &mut st) {
                 rep.violation(&sig, msg, case.clone());
+            } else if st.strict_hits > 0 {
+                rep.violation(STRICT_SIG, st.strict_first.clone().unwrap_or_default(), case.clone());
             }
             outln!("replay stats: {:?}", st);
         }
